@@ -130,12 +130,20 @@ def mutate_in_place(rng, r):
 
 
 def inplace_variant(x_env, st):
-    """run the same step in place on a deep-ish copy of its first operand; returns the object or None"""
+    """run the same step in place on a copy of its first operand; returns (the object the method was called
+    on, what the call returned) or None"""
+    if st["op"] not in INPLACE_OPS:
+        return None
+    x = x_env[st["in"][0]].copy()
+    ret = _inplace_call(x, x_env, st)
+    return x, ret
+
+
+def _inplace_call(x, x_env, st):
     op = st["op"]
     if op not in INPLACE_OPS:
         return None
     p = st.get("params", {})
-    x = x_env[st["in"][0]].copy()
     sym = ser.sym_name(x.symmetry)
     if op == "transpose":
         axes = p.get("axes")
@@ -241,9 +249,16 @@ def gen_cases(seed, chunk, n, tier):
                 inplace_path = True
                 try:
                     ip = inplace_variant(env, st)
-                    if ip is not None and value(ip) != value(env2[st["out"][0]]):
-                        orc = f"{st['op']}(inplace=True) differs from the out-of-place result"
-                        break
+                    if ip is not None:
+                        target, ret = ip
+                        want = value(env2[st["out"][0]])
+                        if value(target) != want:
+                            orc = (f"{st['op']}(inplace=True) left the array it was called on with a value that "
+                                   f"differs from the out-of-place result")
+                            break
+                        if ret is not None and value(ret) != want:
+                            orc = f"{st['op']}(inplace=True) returned a value that differs from the out-of-place result"
+                            break
                 except Exception as e:  # noqa
                     orc = f"{st['op']}(inplace=True) raised {type(e).__name__}: {e} but out-of-place succeeded"
                     break
